@@ -747,8 +747,28 @@ func plant(t *rapid.T, cfg *gen.TreeCfg, tree *gen.Tree, name string, max int) {
 			return
 		}
 		o := objs[rapid.IntRange(0, len(objs)-1).Draw(t, "plantat")]
-		o.Put(name, genCont(t, &gen.TreeCfg{Depth: 2, Width: cfg.Width, Keys: cfg.Keys, NoFloat: true, NoEmpty: true}, 2))
+		o.Put(name, plantValue(t, &gen.TreeCfg{Depth: 2, Width: cfg.Width, Keys: cfg.Keys, NoFloat: true, NoEmpty: true}))
 	}
+}
+
+// plantValue draws the container that is planted: any container, or a list
+// of containers (so that the same index leads to a container at several
+// depths as well), now and then a list of such lists.
+func plantValue(t *rapid.T, cfg *gen.TreeCfg) *gen.Tree {
+	switch rapid.IntRange(0, 3).Draw(t, "plantkind") {
+	case 0, 1:
+		return genCont(t, cfg, 2)
+	}
+	l := gen.List()
+	n := rapid.IntRange(1, 3).Draw(t, "plantlen")
+	for i := 0; i < n; i++ {
+		if rapid.IntRange(0, 3).Draw(t, "plantelem") == 0 {
+			l.Vals = append(l.Vals, gen.List(gen.GenObj(t, cfg, 1), gen.GenObj(t, cfg, 1)))
+		} else {
+			l.Vals = append(l.Vals, gen.GenObj(t, cfg, 1))
+		}
+	}
+	return l
 }
 
 type pool struct {
@@ -836,6 +856,12 @@ func pick(t *rapid.T, from []string, name string) string {
 	return from[rapid.IntRange(0, len(from)-1).Draw(t, "path")]
 }
 
+// wildPath: mostly a name that occurs in the trees, now and then any key of the alphabet.
+func wildPath(t *rapid.T, pl *pool, name string) string {
+	cand := append(append(append(append([]string{}, pl.names...), pl.names...), pl.names...), keys...)
+	return "**" + sep + pick(t, cand, name)
+}
+
 func genPath(t *rapid.T, pl *pool, name string, prev []string) string {
 	if len(prev) > 0 {
 		switch rapid.IntRange(0, 5).Draw(t, "related") {
@@ -854,6 +880,27 @@ func genPath(t *rapid.T, pl *pool, name string, prev []string) string {
 			}
 		}
 	}
+	// a `**` option next to an exact path with index segments, in either order
+	hasWild, hasIdx := false, false
+	for _, p := range prev {
+		if strings.HasPrefix(p, "**"+sep) {
+			hasWild = true
+			continue
+		}
+		for _, s := range strings.Split(p, sep) {
+			hasIdx = hasIdx || isIndex(s)
+		}
+	}
+	if hasWild != hasIdx && rapid.Bool().Draw(t, "pair") {
+		if hasIdx {
+			return wildPath(t, pl, name)
+		}
+		idx := rapid.SampledFrom([]string{"0", "1", "0", "1", "2"}).Draw(t, "pairidx")
+		if len(pl.real) > 0 && rapid.IntRange(0, 2).Draw(t, "pairbare") > 0 {
+			return pick(t, pl.real, name) + sep + idx
+		}
+		return idx
+	}
 	w := rapid.IntRange(0, 19).Draw(t, "pathkind")
 	switch {
 	case w < 8 && len(pl.bothCont) > 0:
@@ -862,12 +909,25 @@ func genPath(t *rapid.T, pl *pool, name string, prev []string) string {
 		return pick(t, pl.real, name)
 	case w < 13 && len(pl.oneSide) > 0:
 		return pick(t, pl.oneSide, name)
-	case w < 16 && len(pl.look) > 0:
+	case w < 14 && len(pl.look) > 0:
 		return pick(t, pl.look, name)
+	case w < 16 && len(pl.real) > 0:
+		// a real path (preferably a container in both trees) with some of its leading or inner
+		// segments dropped: the rest names something else, or nothing, and must not reach the original
+		from := pl.real
+		if len(pl.bothCont) > 0 && rapid.IntRange(0, 3).Draw(t, "echoboth") > 0 {
+			from = pl.bothCont
+		}
+		segs := strings.Split(pick(t, from, name), sep)
+		var keep []string
+		for _, s := range segs[:len(segs)-1] {
+			if rapid.Bool().Draw(t, "keepseg") {
+				keep = append(keep, s)
+			}
+		}
+		return strings.Join(append(keep, segs[len(segs)-1]), sep)
 	case w < 19:
-		// mostly a name that occurs in the trees, now and then any key of the alphabet
-		cand := append(append(append(append([]string{}, pl.names...), pl.names...), pl.names...), keys...)
-		return "**" + sep + pick(t, cand, name)
+		return wildPath(t, pl, name)
 	}
 	// absent: a real path continued by one more segment, or arbitrary segments
 	if len(pl.real) > 0 && rapid.Bool().Draw(t, "extend") {
